@@ -55,7 +55,9 @@ def run_thermal(net, opts):
         pp.pipeflow(net, sol_vec=sol, **opts)
         return SolveResult("ok")
     except PipeflowNotConverged as e:
-        return SolveResult("not_converged", e)
+        r = SolveResult("not_converged", e)
+        r.stage = "heat"
+        return r
     except UserWarning as e:
         return SolveResult("rejected", e)
     except Exception as e:
@@ -91,6 +93,12 @@ def evaluate(case):
     net = build(rec)
     r = run_thermal(net, opts)
     if not r.ok:
+        if opts["mode"] == "heat" and r.status == "not_converged" and getattr(r, "stage", "") == "heat":
+            # the thermal-only run starts from the stored hydraulic solution: it has to succeed wherever the sequential run does
+            r2 = solve(build(rec), **dict(opts, mode="sequential"))
+            if r2.ok:
+                return Outcome(findings=[Finding("heat_mode", "C10.heat_mode.fails_where_sequential_converges", {"exc": repr(r.exc)[:200]})],
+                               labels={"mode:heat"}, nontrivial=True, sample={"recipe": abbreviate(rec), "options": opts})
         return Outcome(discard=r.status)
     fl = RefFluid.get(rec["fluid"])
     cp = fl.heat_capacity
@@ -235,7 +243,7 @@ def evaluate(case):
 def run_shard(coll, tier, seed, shard, nshards, known):
     def ev(case):
         out = evaluate(case)
-        if not out.discard:
+        if not out.discard and hasattr(out, "stats"):
             coll.maximum("max_cooling_law_error_k", out.stats["cooling"])
             coll.maximum("max_relative_mixing_residual", out.stats["mixing"])
         return out
